@@ -522,6 +522,7 @@ func init() {
 		c07Structures(r)
 		c07Bytes(r)
 		c07MapOrder(r)
+		c07MapOrderLayouter(r)
 		c07HistoryFlags(r)
 		c07Layouter(r)
 		c07History(r)
